@@ -958,6 +958,7 @@ def main():
     ap.add_argument('ll'); ap.add_argument('out'); ap.add_argument('--root', action='append', default=[]); ap.add_argument('--stub', action='append', default=[])
     ap.add_argument('--stubre', action='append', default=[])
     ap.add_argument('--keep-virtual', action='append', default=[])
+    ap.add_argument('--need-global', action='append', default=[], help='mangled global (e.g. a typeinfo object) to emit even if the translated code does not reference it')
     ap.add_argument('--cut', action='append', default=[], help='demangled-name regex: like --stubre, but an empty body is generated (value-irrelevant constructors/destructors cut as pairs)')
     a = ap.parse_args()
     mod = parse_module(open(a.ll).read())
@@ -977,6 +978,8 @@ def main():
     for r in a.root:
         rr = re.compile(r); roots += [n for n in mod.funcs if rr.search(n2d[n])]
     for r in roots: em.need_funcs[r] = True
+    for g in a.need_global:
+        if g in mod.globals or g.startswith('_ZTI'): em.need_globals.setdefault(g, True)
     for r in roots: print('ROOT ' + n2d[r][:300], file=sys.stderr)
     done = {}; fails = {}
     while True:
